@@ -8,9 +8,11 @@ use crate::response::Response;
 use serde_json::{json, Value};
 
 pub const BODY_ALPHABET: &[&[u8]] = &[b"a", b"\r", b"\n", b"-", b"\xff"];
-pub const HEADER_SETS: &[&[(&str, &str)]] = &[&[], &[("Host", "localhost")], &[("X-A", "b"), ("Server", "rws: 1")], &[("Set-Cookie", "a=b; Path=/"), ("Set-Cookie", "c=d")]];
+pub const HEADER_SETS: &[&[(&str, &str)]] = &[&[], &[("Host", "localhost")], &[("X-A", "b"), ("Server", "rws: 1")], &[("Set-Cookie", "a=b; Path=/"), ("Set-Cookie", "c=d")],
+    // the same line twice; a line that is the tail of an earlier line or of a generated one
+    &[("X-A", "b"), ("X-A", "b")], &[("X-Upstream-Content-Type", "text/plain"), ("Server", "rws")], &[("X-Orig-Content-Length", "4"), ("X-Content-Range", "bytes 0-3/4")], &[("Warning", "x"), ("Warning", "x"), ("Warning", "x")]];
 pub const HVALUE_ALPHABET: &[&str] = &["a", " ", "\t", ":", ";"];
-pub const TYPES: &[&str] = &["text/plain", "application/octet-stream", "image/png"];
+pub const TYPES: &[&str] = &["text/plain", "application/octet-stream", "image/png", "text/plain; charset=UTF-8", "application/vnd.ms-Excel"];
 
 #[derive(Clone, Debug)]
 pub struct Case {
